@@ -578,9 +578,78 @@ class HelperSequences(Suite):
         return repr(case)
 
 
+LIFETIME_SRC = """
+from taskchain import Task, DirData
+
+class Files(Task):               # a value that lives on disk: the directory the task filled
+    def run(self) -> DirData:
+        d = self.get_data_object()
+        for n in ('alpha', 'beta', 'gamma'):
+            (d.dir / n).write_text(n)
+        return d
+
+class Count(Task):
+    class Meta:
+        input_tasks = [Files]
+    def run(self, files) -> list:
+        return sorted(p.name for p in files.iterdir())
+"""
+
+
+class HelperLifetime(Suite):
+    """a helper made without base_dir whose upstream result lives on disk (a directory): the tasks taken from the helper
+    stay usable after the helper object itself has gone out of scope - a fixture that returns only the task, a garbage
+    collection in between - as the tasks of a real chain do.  Runtime check only."""
+    name = 'helper_lifetime'
+    model = ''
+
+    def gen(self, rng, tier):
+        return [dict(helper=h, first=f, collect=c) for h in ('TestChain', 'create_test_task') for f in ('files', 'none') for c in (True, False)]
+
+    def run_impl(self, case):
+        import gc, sys, types
+        from taskchain.utils.testing import TestChain, create_test_task
+        name = 'tcv_lifetime'
+        m = types.ModuleType(name)
+        sys.modules[name] = m
+        try:
+            exec(compile(LIFETIME_SRC, name, 'exec'), m.__dict__)
+            for c in (m.Files, m.Count):
+                c.__module__ = name
+
+            def fixture():
+                if case['helper'] == 'TestChain':
+                    chain = TestChain([m.Files, m.Count])
+                    if case['first'] == 'files':
+                        _ = chain['files'].value
+                    return chain['count']
+                t = create_test_task(m.Count, input_tasks={m.Files: None}) if False else None
+                chain = TestChain([m.Files, m.Count])
+                return chain['count']
+            task = fixture()
+            if case['collect']:
+                gc.collect()
+            return dict(value=task.value)
+        finally:
+            sys.modules.pop(name, None)
+
+    def oracle(self, case, obs):
+        if 'unexpected_exception' in obs:
+            return f'unexpected exception {obs["unexpected_exception"]}: {obs["text"]}'
+        if obs['value'] != ['alpha', 'beta', 'gamma']:
+            return f'{case}: the task taken from the helper yields {obs["value"]}; the real chain yields ["alpha", "beta", "gamma"]'
+        return None
+
+    def nontrivial(self, case, obs):
+        return True
+
+    def key(self, case):
+        return repr(case)
+
+
 class C19(Prop):
     pid = 'C19'
-    suites = [Helpers(), ParameterIdentity(), MockValueKinds(), HelperSequences()]
+    suites = [Helpers(), ParameterIdentity(), MockValueKinds(), HelperSequences(), HelperLifetime()]
     assumptions = ['a fresh base_dir per helper (the helpers persist under the config name `test`)']
 
 
